@@ -50,6 +50,8 @@ Example::
 """
 
 
+import six
+
 import productmd.common
 from productmd.common import Header
 from productmd.composeinfo import Compose
@@ -162,6 +164,12 @@ class Rpms(productmd.common.MetadataBase):
 
         if category not in SUPPORTED_CATEGORIES:
             raise ValueError("Invalid category value: %s" % category)
+
+        for name, value in (("nevra", nevra), ("path", path), ("sigkey", sigkey), ("srpm_nevra", srpm_nevra)):
+            if value is None and name != "nevra":
+                continue
+            if not isinstance(value, six.string_types):
+                raise TypeError("Argument '%s' has to be a string: %r" % (name, value))
 
         if not path:
             raise ValueError("Path is not set: %s" % nevra)
